@@ -467,7 +467,7 @@ package stdlib
 //@   may_panic
 //@   let a0 (val_at args 0)
 //@   let a1 (val_at args 1)
-//@   ensures[C12] false_only_if_decided: (=> (and (= result.1 nil.Any) (not (is_marked a0)) (not (is_marked a1)) (is_set_ty (vty a0)) (ty_eq (vty a1) (elem_ty (vty a0))) (bool_payload result.0 false)) (and (wholly_known a0) (wholly_known a1)))
+//@   ensures[C12] false_only_if_decided: (=> (and (= result.1 nil.Any) (not (deep_marked a0)) (not (deep_marked a1)) (is_set_ty (vty a0)) (ty_eq (vty a1) (elem_ty (vty a0))) (bool_payload result.0 false)) (and (wholly_known a0) (wholly_known a1)))
 //
 // The shared Type callback of setunion / setintersection / setsubtract / setsymmetricdifference (C11): under
 // what returnTypeForValues establishes for the declared parameters (sets of any element type or dynamically
